@@ -13,6 +13,18 @@
 (*          a parameter = [n, t, req, d]; a type t = [k, c, c2] with       *)
 (*          k \in {"int","str","cls","opt","list","dict","union"}:         *)
 (*          int, str, C, Optional[C], List[C], Dict[str,C], Union[C,C2]    *)
+(*          and (round 4) "optlist" Optional[List[C]], "listopt"           *)
+(*          List[Optional[C]], "optdict" Optional[Dict[str,C]]             *)
+(*          (round 4) ext : sequence of BINDINGS [m, n, c, def, u]: the    *)
+(*          import path m.n is bound to the class with key c (a class      *)
+(*          outside the module Mod: another module, a package P with a     *)
+(*          sub-module P.v2); def = m is the module that DEFINES c (n is   *)
+(*          its __name__); u = the unit (module / package) an import of m  *)
+(*          loads.  Two bindings with the same n and different c = name    *)
+(*          shadowing; two bindings with the same c = a re-export (the     *)
+(*          same object).  late : the units not imported when the process  *)
+(*          starts; vis : those of them imported SO FAR -- the family is a *)
+(*          function of time, FamOf(case) carries the case's vis.          *)
 (*   T      the class the argument --x is typed with                       *)
 (*   items  the sources, left to right:                                    *)
 (*          [k |-> "whole", v]     --x=<v>         (class name, path, dict) *)
@@ -24,6 +36,17 @@
 (*          command line), "dcf" (a default_config_files file), "env"      *)
 (*          (the environment variable of --x), "string" (parse_string);    *)
 (*          the other sources follow on the command line                   *)
+(*   host   (round 4) where the argument lives: "top" (the parser that is   *)
+(*          parsed) or "sub" (the parser of a sub-command `fit`; sources   *)
+(*          follow the sub-command's name, config sources are --cfg of the *)
+(*          sub-command or the section "fit" of a --cfg of the root).      *)
+(*          Neither layer looks at it: the property is about the argument, *)
+(*          and the sub-command's parser is an ArgumentParser of its own   *)
+(*          (_ActionSubCommands.__call__ -> subparser.parse_known_args,    *)
+(*          instantiate_classes recurses into the sub-command's parser).   *)
+(* Values: [k|->"file",v] (round 4): a str that is the PATH of a file whose *)
+(* content is the value v (sub_configs / enable_path); it is read where an *)
+(* option's value is checked (_check_type:561-563), not inside containers. *)
 (* Values: [k|->"int",i], [k|->"str",s], [k|->"dstr",i] (a str of digits), *)
 (* [k|->"null"], [k|->"ref",m,n] (a                                        *)
 (* class reference: m = "" bare name, "M" the family's module, "X" a       *)
@@ -79,13 +102,24 @@ IsSub(fam, c, t) == c = t \/ (fam.cls[c].parent # "" /\ IsSub(fam, fam.cls[c].pa
 \* classes offered by bare name for type t: t and its descendants, abstract and private ones excluded
 ByName(fam, t) == {c \in DOMAIN fam.cls : IsSub(fam, c, t) /\ ~fam.cls[c].abs}
 
+\* round 4: layouts and histories
+ExtSet(fam) == SeqToSet(fam.ext)
+DefOf(fam, c) == {b \in ExtSet(fam) : b.c = c /\ b.def}
+NameOf(fam, c) == IF DefOf(fam, c) = {} THEN c ELSE (CHOOSE b \in DefOf(fam, c) : TRUE).n            \* the class's own __name__
+Loaded(fam, c) == \A b \in DefOf(fam, c) : b.u \notin SeqToSet(fam.late) \/ b.u \in SeqToSet(fam.vis)   \* its defining module has been imported
 \* resolution of a class reference against the declared class t:  a class/factory name, or "" (fails)
 \* resolve_class_path_by_name:1314-1329, import_object (_util.py:172-186), the subclass test :1078-1093
 Resolve(fam, t, r) ==
   IF r.k = "ref" THEN
-     (IF r.m = "" THEN (IF r.n \in ByName(fam, t) THEN r.n ELSE "")                    \* a bare name is only found among the subclasses
+     (IF r.m = "" THEN (IF r.n \notin {b.n : b \in ExtSet(fam)} THEN (IF r.n \in ByName(fam, t) THEN r.n ELSE "")      \* a bare name is only found among the subclasses (no class of another module has this name: the class's key is its name)
+                        \* ... among the subclasses that EXIST AT THE TIME OF THE PARSE (cl.__subclasses__() :1292-1293), by their own name;
+                        \* none: not found; several: "Multiple subclasses with name" (:1321-1325) -- the ambiguity is reported, not guessed
+                        ELSE LET cand == {c \in ByName(fam, t) : NameOf(fam, c) = r.n /\ Loaded(fam, c)}
+                             IN IF Cardinality(cand) = 1 THEN CHOOSE c \in cand : TRUE ELSE "")
       ELSE IF r.m = Mod THEN (IF IsClass(fam, r.n) \/ IsFunc(fam, r.n) THEN r.n ELSE "")   \* a non-callable attribute / missing attribute fails
-      ELSE "")                                                                         \* ModuleNotFoundError
+      \* any other module path: the object BOUND at that path (import_object: __import__ + getattr) -- the very object, whatever
+      \* else carries the same name elsewhere; no binding: ModuleNotFoundError / AttributeError
+      ELSE LET bs == {b \in ExtSet(fam) : b.m = r.m /\ b.n = r.n} IN IF bs = {} THEN "" ELSE (CHOOSE b \in bs : TRUE).c)
   ELSE ""                                                                              \* any other string: not an import path
 Designates(fam, t, c) == c # "" /\ IsSub(fam, Built(fam, c), t)
 
@@ -128,7 +162,10 @@ RefDelta(v) ==
 \* ActionTypeHint.__call__:535-540: a dotted option becomes a NestedArg, a leading "init_args." is dropped.  Its value is
 \* TEXT: an int written there reaches an int parameter as that int and a str parameter as its digits ("tint")
 AsText(v) == IF v.k = "int" THEN [k |-> "tint", i |-> v.i] ELSE v
-ItemValue(it) == IF it.k = "dot" THEN Nested(StripInit(it.p), AsText(it.v)) ELSE it.v
+\* round 4: a value that is the path of a sub-config file denotes the content of the file (_check_type:561-563
+\* parse_value_or_config(val, enable_path) -- for the value of an option, not for a NestedArg and not inside a container)
+Unfile(v) == IF v.k = "file" THEN v.v ELSE v
+ItemValue(it) == IF it.k = "dot" THEN Nested(StripInit(it.p), AsText(it.v)) ELSE Unfile(it.v)
 \* A str made of digits is its own kind of value, [k |-> "dstr", i |-> n] = the Python str repr(n): wherever a str meets a
 \* non-str type it is loaded first (adapt_typehints:781-783), so such a str is a valid int -- this decides which init_args
 \* survive a class change.  Other strs are [k |-> "str", s].
@@ -162,7 +199,8 @@ RefApplyCls(fam, dev, tc, cur, v) ==
                                                     ELSE Rej]
                   IN IF \E n \in DOMAIN newa : newa[n] = Rej THEN Rej
                      ELSE S(target, Overlay(kepta, newa), Overlay(keptw, dk2))
-RefApplyT(fam, dev, t, cur, v) ==
+RefApplyT(fam, dev, t, cur, v0) ==
+  LET v == IF t.k \in {"cls", "opt", "union"} THEN Unfile(v0) ELSE v0 IN     \* the value of a class-typed parameter may be given as a sub-config file
   CASE t.k = "int"   -> LeafInt(v)
     [] t.k = "str"   -> LeafStr(v)
     [] t.k = "cls"   -> RefApplyCls(fam, dev, t.c, cur, v)
@@ -174,6 +212,13 @@ RefApplyT(fam, dev, t, cur, v) ==
     [] t.k = "dict"  -> IF v.k # "dict" THEN Rej
                         ELSE LET rs == [n \in DOMAIN v.d |-> RefApplyCls(fam, dev, t.c, IF cur.k = "dict" /\ n \in DOMAIN cur.d THEN cur.d[n] ELSE NoVal, v.d[n])]
                              IN IF \E n \in DOMAIN rs : rs[n] = Rej THEN Rej ELSE VDict(rs)
+    \* round 4: containers one level deeper.  Optional[...] adds the value null; the elements of List[Optional[C]] may be null
+    [] t.k = "optlist" -> IF v.k = "null" THEN VNull ELSE RefApplyT(fam, dev, [t EXCEPT !.k = "list"], cur, v)
+    [] t.k = "optdict" -> IF v.k = "null" THEN VNull ELSE RefApplyT(fam, dev, [t EXCEPT !.k = "dict"], cur, v)
+    [] t.k = "listopt" -> IF v.k # "list" THEN Rej
+                          ELSE LET rs == [j \in 1..Len(v.l) |-> IF v.l[j].k = "null" THEN VNull
+                                                                ELSE RefApplyCls(fam, dev, t.c, IF cur.k = "list" /\ Len(cur.l) = Len(v.l) THEN cur.l[j] ELSE NoVal, v.l[j])]
+                               IN IF \E j \in 1..Len(rs) : rs[j] = Rej THEN Rej ELSE VList(rs)
     [] OTHER -> Rej
 
 
@@ -210,6 +255,9 @@ AcceptVal(fam, dev, t, v) ==
     [] t.k = "union" -> AcceptSpec(fam, dev, t.c, v) \/ AcceptSpec(fam, dev, t.c2, v)
     [] t.k = "list"  -> v.k = "list" /\ \A j \in 1..Len(v.l) : AcceptSpec(fam, dev, t.c, v.l[j])
     [] t.k = "dict"  -> v.k = "dict" /\ \A n \in DOMAIN v.d : AcceptSpec(fam, dev, t.c, v.d[n])
+    [] t.k = "optlist" -> v.k = "null" \/ (v.k = "list" /\ \A j \in 1..Len(v.l) : AcceptSpec(fam, dev, t.c, v.l[j]))
+    [] t.k = "optdict" -> v.k = "null" \/ (v.k = "dict" /\ \A n \in DOMAIN v.d : AcceptSpec(fam, dev, t.c, v.d[n]))
+    [] t.k = "listopt" -> v.k = "list" /\ \A j \in 1..Len(v.l) : (v.l[j].k = "null" \/ AcceptSpec(fam, dev, t.c, v.l[j]))
     [] OTHER -> FALSE
 
 \* the outcome of parsing: [ok, v]   (v = the normal form when accepted)
@@ -298,7 +346,18 @@ AlgAsNamespace(v, prev) ==
                  ELSE Raw(prevcp, v, NoVal)                                                            \* :1204
     [] OTHER -> Rej                                                                                    \* :1177-1178 None
 
-EmptyPrev == [k |-> "emptyprev"]       \* a previous value that is an empty dict: not None, not a spec
+EmptyPrev == [k |-> "emptyprev"]       \* a previous value that is not None and not a spec (an empty dict, a whole list)
+\* :893-900 the previous value of element j of a list.  Recorded deviation "listlen": when the previous list has ANOTHER length the
+\* else-branch (:899-900) leaves prev_val = the WHOLE previous list (not None), so the implicit class_path (:1062) is not applied
+ListPrev(prev, n, j) == IF prev.k = "list" THEN (IF Len(prev.l) = n THEN prev.l[j] ELSE EmptyPrev) ELSE NoVal
+\* Recorded deviation "nonetext": the value of a dotted option is loaded by parse_value_or_config (_util.py:132-151, also inside
+\* a NestedArg) and, when the key goes further down, written back with str() into the argv of the class parser
+\* (f"--{key}={val}", :1050 / :1425): the loaded null arrives one level down as the TEXT "None"
+RECURSIVE PyText(_)
+PyText(v) == CASE v.k = "null" -> VStr("None")
+               [] v.k = "list" -> VList([j \in 1..Len(v.l) |-> PyText(v.l[j])])
+               [] v.k = "dict" -> VDict([n \in DOMAIN v.d |-> PyText(v.d[n])])
+               [] OTHER        -> v
 RECURSIVE AlgAdaptCls(_, _, _, _, _), AlgAdaptT(_, _, _, _), AlgClassType(_, _, _, _, _, _), AlgDiscard(_, _, _), AlgParseObject(_, _, _, _)
 \* discard_init_args_on_class_path_change, :1347-1369: on a class change keep only the previous init_args that the
 \* new class's parser has an action for and whose value checks (each one on its own, against an empty config)
@@ -323,7 +382,7 @@ AlgClassType(fam, c, ia, dk, prev, merge) ==
      THEN LET n == ia.p[1]
               rest == StripInit(Tail(ia.p))                                                            \* ActionTypeHint.__call__:535-540
               val == IF n \in PNames(fam, c)
-                     THEN AlgAdaptT(fam, PRec(fam, c, n).t, IF Tail(ia.p) = << >> THEN ia.v ELSE Nested(rest, ia.v), IF n \in DOMAIN basea THEN basea[n] ELSE NoVal)
+                     THEN AlgAdaptT(fam, PRec(fam, c, n).t, IF Tail(ia.p) = << >> THEN ia.v ELSE Nested(rest, PyText(ia.v)), IF n \in DOMAIN basea THEN basea[n] ELSE NoVal)
                      ELSE Rej                                                                          \* unrecognized argument
           IN IF val = Rej THEN Rej ELSE S(c, Overlay(basea, [x \in {n} |-> val]), basew)
      ELSE IF (ia # NoVal /\ ia.k # "dict") \/ (dk # NoVal /\ dk.k # "dict") THEN Rej
@@ -343,20 +402,30 @@ AlgAdaptCls(fam, tc, v, prev, merge) ==
      ELSE LET c == Resolve(fam, tc, raw.cp)                                                            \* :1077
           IN IF c = "" \/ ~IsSub(fam, Built(fam, c), tc) THEN Rej                                      \* :1083-1093, import errors :1096-1099
              ELSE AlgClassType(fam, c, raw.ia, raw.dk, prev1, merge)                                        \* :1094-1095
-AlgAdaptT(fam, t, v, prev) ==
+AlgAdaptT(fam, t, v0, prev) ==
+  LET v == IF t.k \in {"cls", "opt", "union"} THEN Unfile(v0) ELSE v0 IN      \* _check_type:561-563: the parameter's action reads the file; _signatures.py:410-412 enable_path only for subclass types
   CASE t.k = "int"   -> LeafInt(v)                                                                     \* :780-787 (text is loaded first)
     [] t.k = "str"   -> LeafStr(v)                                                                     \* _check_type:587-591 a str keeps the original text
     [] t.k = "cls"   -> AlgAdaptCls(fam, t.c, v, prev, TRUE)
     [] t.k = "opt"   -> IF v.k = "null" THEN VNull ELSE AlgAdaptCls(fam, t.c, v, prev, TRUE)                \* Union[NoneType first, C] :833-847
     [] t.k = "union" -> LET r1 == AlgAdaptCls(fam, t.c, v, prev, TRUE) IN IF r1 # Rej THEN r1 ELSE AlgAdaptCls(fam, t.c2, v, prev, TRUE)   \* first member that accepts
     [] t.k = "list"  -> IF v.k # "list" THEN Rej                                                       \* :866-899 (prev element-wise when the lengths agree)
-                        ELSE LET rs == [j \in 1..Len(v.l) |-> AlgAdaptCls(fam, t.c, v.l[j], IF prev.k = "list" /\ Len(prev.l) = Len(v.l) THEN prev.l[j] ELSE NoVal, FALSE)]
+                        ELSE LET rs == [j \in 1..Len(v.l) |-> AlgAdaptCls(fam, t.c, v.l[j], ListPrev(prev, Len(v.l), j), FALSE)]
                              IN IF \E j \in 1..Len(rs) : rs[j] = Rej THEN Rej ELSE VList(rs)
     [] t.k = "dict"  -> IF v.k # "dict" THEN Rej                                                       \* :902-934 (prev by key)
                         ELSE LET rs == [n \in DOMAIN v.d |-> AlgAdaptCls(fam, t.c, v.d[n],
                                               IF prev.k = "dict" /\ DOMAIN prev.d = {} THEN EmptyPrev       \* deviation "emptydict": `if kwargs.get("prev_val"):` (:929) is false for {}, the element gets the EMPTY DICT as its previous value
                                               ELSE IF prev.k = "dict" /\ n \in DOMAIN prev.d THEN prev.d[n] ELSE NoVal, FALSE)]
                              IN IF \E n \in DOMAIN rs : rs[n] = Rej THEN Rej ELSE VDict(rs)
+    \* round 4.  Optional[List[C]] = Union[List[C], NoneType]: sort_subtypes_for_union:1480-1492 tries NoneType first, then the
+    \* container branch with the same prev_val (:833-847); List[Optional[C]]: every element goes through the Union branch with
+    \* the element-wise previous value (a previous null element is "no previous value")
+    [] t.k = "optlist" -> IF v.k = "null" THEN VNull ELSE AlgAdaptT(fam, [t EXCEPT !.k = "list"], v, prev)
+    [] t.k = "optdict" -> IF v.k = "null" THEN VNull ELSE AlgAdaptT(fam, [t EXCEPT !.k = "dict"], v, prev)
+    [] t.k = "listopt" -> IF v.k # "list" THEN Rej
+                          ELSE LET rs == [j \in 1..Len(v.l) |-> IF v.l[j].k = "null" THEN VNull
+                                                                ELSE AlgAdaptCls(fam, t.c, v.l[j], ListPrev(prev, Len(v.l), j), FALSE)]
+                               IN IF \E j \in 1..Len(rs) : rs[j] = Rej THEN Rej ELSE VList(rs)
     [] OTHER -> Rej
 
 \* check_required through the class parsers (validate:1097-1109 via _check_value_key), all levels
@@ -495,7 +564,7 @@ RefOfF(dev, filled) == RefParseD(FamOf(cs), dev, cs.T, cs.items, cs.dflt, filled
 RefOf(dev) == RefOfF(dev, cs.chan # "dcf")          \* the reading the code follows: only a default config file meets the unfilled default
 \* does a source mention dict_kwargs (as a dotted segment or as a key of a dict, at any depth)?
 RECURSIVE MentionsDK(_)
-MentionsDK(v) == CASE v.k = "dict" -> "dict_kwargs" \in DOMAIN v.d \/ \E n \in DOMAIN v.d : MentionsDK(v.d[n])
+MentionsDK(v) == CASE v.k = "file" -> MentionsDK(v.v) [] v.k = "dict" -> "dict_kwargs" \in DOMAIN v.d \/ \E n \in DOMAIN v.d : MentionsDK(v.d[n])
                    [] v.k = "list" -> \E j \in 1..Len(v.l) : MentionsDK(v.l[j])
                    [] OTHER        -> FALSE
 InvolvesDictKwargs == MentionsDK(cs.dflt) \/ \E j \in 1..Len(cs.items) : MentionsDK(cs.items[j].v) \/ (cs.items[j].k = "dot" /\ "dict_kwargs" \in SeqToSet(cs.items[j].p))
@@ -505,13 +574,33 @@ EnvReqDeviation == cs.chan = "env" /\ cs.items # << >>
 \* Recorded deviation "emptydict": when the previous value of a Dict[str, C] parameter is the EMPTY dict, a key given in a short
 \* form (no class_path) is rejected, although with no previous value at all it denotes the declared class.
 RECURSIVE MentionsEmptyDict(_)
-MentionsEmptyDict(v) == CASE v.k = "dict" -> DOMAIN v.d = {} \/ \E n \in DOMAIN v.d : MentionsEmptyDict(v.d[n])
+MentionsEmptyDict(v) == CASE v.k = "file" -> MentionsEmptyDict(v.v) [] v.k = "dict" -> DOMAIN v.d = {} \/ \E n \in DOMAIN v.d : MentionsEmptyDict(v.d[n])
                           [] v.k = "list" -> \E j \in 1..Len(v.l) : MentionsEmptyDict(v.l[j])
                           [] OTHER        -> FALSE
 EmptyDictDeviation == /\ \E j \in 1..Len(cs.items) : MentionsEmptyDict(cs.items[j].v)
                       /\ RefOf(CodeDev).ok /\ ~AlgParseD(FamOf(cs), cs.T, cs.items, cs.dflt, cs.chan).ok
-\* the code is the reference with the recorded deviations (dict_kwargs: stale, nokw; env: envreq; Dict: emptydict) -- and nothing else
-AlgRefinesRef == Done => IF EnvReqDeviation \/ EmptyDictDeviation THEN AlgParsed = Parsed(FALSE, Rej) ELSE AlgParsed = RefOf(CodeDev)
+\* Recorded deviation "listlen" (round 4): an element of a list given in a short form (no class_path) is rejected when the previous
+\* value of the list has another length, although with no previous list (or one of the same length) it denotes the declared /
+\* the previous element's class.
+RECURSIVE MentionsShortInList(_)
+MentionsShortInList(v) == CASE v.k = "file" -> MentionsShortInList(v.v) [] v.k = "list" -> \E j \in 1..Len(v.l) : (v.l[j].k = "dict" /\ "class_path" \notin DOMAIN v.l[j].d) \/ MentionsShortInList(v.l[j])
+                            [] v.k = "dict" -> \E n \in DOMAIN v.d : MentionsShortInList(v.d[n])
+                            [] OTHER        -> FALSE
+ListLenDeviation == /\ \E j \in 1..Len(cs.items) : MentionsShortInList(cs.items[j].v)
+                    /\ RefOf(CodeDev).ok /\ ~AlgParseD(FamOf(cs), cs.T, cs.items, cs.dflt, cs.chan).ok
+\* Recorded deviation "nonetext" (round 4): a dotted option that goes two or more levels down and whose value is / contains null
+\* is rejected (the null arrives as the text "None"), although the same value one level down, or in a dict, is accepted.
+RECURSIVE MentionsNull(_)
+MentionsNull(v) == CASE v.k = "null" -> TRUE [] v.k = "file" -> MentionsNull(v.v)
+                     [] v.k = "list" -> \E j \in 1..Len(v.l) : MentionsNull(v.l[j])
+                     [] v.k = "dict" -> \E n \in DOMAIN v.d : MentionsNull(v.d[n])
+                     [] OTHER        -> FALSE
+NoneTextDeviation == /\ \E j \in 1..Len(cs.items) : cs.items[j].k = "dot" /\ Len(StripInit(cs.items[j].p)) >= 2 /\ MentionsNull(cs.items[j].v)
+                     /\ RefOf(CodeDev).ok /\ ~AlgParseD(FamOf(cs), cs.T, cs.items, cs.dflt, cs.chan).ok
+Round4Deviation == ListLenDeviation \/ NoneTextDeviation
+\* the code is the reference with the recorded deviations (dict_kwargs: stale, nokw; env: envreq; Dict: emptydict; List: listlen;
+\* dotted null: nonetext) -- and nothing else
+AlgRefinesRef == Done => IF EnvReqDeviation \/ EmptyDictDeviation \/ Round4Deviation THEN AlgParsed = Parsed(FALSE, Rej) ELSE AlgParsed = RefOf(CodeDev)
 \* ... and the deviations are invisible unless dict_kwargs are used
 DevOnlyDictKwargs == (Done /\ ~InvolvesDictKwargs) => RefOf(NoDev) = RefOf(CodeDev)
 MachineIsFold == Done => AlgParsed = AlgParseD(FamOf(cs), cs.T, cs.items, cs.dflt, cs.chan)
@@ -519,5 +608,5 @@ MachineIsFold == Done => AlgParsed = AlgParseD(FamOf(cs), cs.T, cs.items, cs.dfl
 AcceptedIsValid == (Done /\ ok = "accept") => AcceptSpec(FamOf(cs), CodeDev, cs.T, cur)
 LogRebuilds == (Done /\ ok = "accept") => LogOK(FamOf(cs), cur, log, Len(log), Built(FamOf(cs), cur.c))
 \* Normal(short form) = Normal(explicit form)
-ShortEqualsExplicit == (Done /\ cs.dflt = NoVal /\ ~EmptyDictDeviation /\ RefOf(CodeDev).ok /\ RefOf(NoDev) = RefOf(CodeDev)) => AlgParse(FamOf(cs), cs.T, ExplicitItems(FamOf(cs), cs.T, cs.items)) = AlgParsed
+ShortEqualsExplicit == (Done /\ cs.dflt = NoVal /\ ~EmptyDictDeviation /\ ~Round4Deviation /\ RefOf(CodeDev).ok /\ RefOf(NoDev) = RefOf(CodeDev)) => AlgParse(FamOf(cs), cs.T, ExplicitItems(FamOf(cs), cs.T, cs.items)) = AlgParsed
 =============================================================================
